@@ -111,7 +111,7 @@ func ruleNibbles(c *Ctx, r *Report, rule string) {
 // bindArmAST gathers the pieces of the BIND arm.
 type bindParts struct {
 	clause      *ast.CaseClause
-	filter      *ast.RangeStmt
+	filter      *filterLoop
 	blocks      types.Object
 	typeVar     types.Object
 	selVar      types.Object
@@ -185,9 +185,9 @@ func (c *Ctx) bindParts(vm *vmModel) (*bindParts, string) {
 					}
 				}
 			}
-		case *ast.RangeStmt:
-			if c.fieldPath(s.X) == "<vm>.result" {
-				bp.filter = s
+		case *ast.RangeStmt, *ast.ForStmt:
+			if fl := c.asFilterLoop(s, func(x ast.Expr) bool { return c.fieldPath(x) == "<vm>.result" }); fl != nil {
+				bp.filter = fl
 			}
 		case *ast.SwitchStmt:
 			if s.Tag == nil {
@@ -230,9 +230,9 @@ func (c *Ctx) bindParts(vm *vmModel) (*bindParts, string) {
 						}
 					}
 				}
-			case *ast.RangeStmt:
-				if c.isObj(s.X, first) {
-					hb.filter = s
+			case *ast.RangeStmt, *ast.ForStmt:
+				if fl := c.asFilterLoop(s, func(x ast.Expr) bool { return c.isObj(x, first) }); fl != nil {
+					hb.filter = fl
 				}
 			}
 		}
@@ -269,43 +269,91 @@ func ruleBindFilter(c *Ctx, r *Report, rule string, bp *bindParts) {
 	pos := c.pos(bp.clause.Pos())
 	r.check(bp.freshOK, rule, "fresh-slice", "candidates start as a new empty slice", "the candidate slice must be a fresh empty slice (not a view of vm.result)", pos)
 	f := bp.filter
-	vobj := types.Object(nil)
-	if id, ok := f.Value.(*ast.Ident); ok {
-		vobj = c.objOf(id)
+	// the loop body, whatever its spelling: exactly one append to the candidates, of the element itself,
+	// under exactly the condition elem.Type == operand; everything else in the body is a guard that skips (continue)
+	ok := true
+	why := "the loop must append a block iff its Type equals the BIND operand: `if b.Type == type { candidates = append(candidates, b) }` or an equivalent form"
+	var appendStmt *ast.AssignStmt
+	nAssign := 0
+	ast.Inspect(f.Body, func(n ast.Node) bool {
+		switch n := n.(type) {
+		case *ast.AssignStmt:
+			for _, l := range n.Lhs {
+				if c.isObj(l, bp.blocks) {
+					nAssign++
+					appendStmt = n
+				} else if _, isIdx := stripParens(l).(*ast.IndexExpr); isIdx {
+					ok = false
+					why = "the loop stores through an index"
+				}
+			}
+		case *ast.IncDecStmt, *ast.GoStmt, *ast.DeferStmt, *ast.SendStmt, *ast.ReturnStmt:
+			ok = false
+			why = fmt.Sprintf("the loop contains a %T", n)
+		case *ast.BranchStmt:
+			if n.Tok != token.CONTINUE {
+				ok = false
+				why = "the loop can be left early (" + n.Tok.String() + "): not every block is looked at"
+			}
+		case *ast.ForStmt, *ast.RangeStmt:
+			ok = false
+			why = "nested loop"
+		}
+		return true
+	})
+	if nAssign != 1 || appendStmt == nil {
+		ok = false
 	}
-	ok := vobj != nil && len(f.Body.List) == 1
-	why := "the loop body must be a single `if b.Type == type { candidates = append(candidates, b) }`"
 	if ok {
-		ifs, isIf := f.Body.List[0].(*ast.IfStmt)
-		ok = isIf && ifs.Else == nil && ifs.Init == nil && len(ifs.Body.List) == 1
-		if ok {
-			be, isB := stripParens(ifs.Cond).(*ast.BinaryExpr)
-			ok = isB && be.Op == token.EQL
-			if ok {
-				l, rr := be.X, be.Y
+		call, isC := appendStmt.Rhs[0].(*ast.CallExpr)
+		ok = isC && len(appendStmt.Lhs) == 1 && c.calleeName(call) == "append" && len(call.Args) == 2 && c.isObj(call.Args[0], bp.blocks) && f.ElemIs(call.Args[1])
+		if !ok {
+			why = "a matching block must be appended to the candidate slice, nothing else"
+		}
+	}
+	if ok {
+		// the facts under which the append runs: exactly elem.Type == operand
+		facts := splitFacts(c.factsAt(f.Body, appendStmt))
+		typeEq, other := 0, 0
+		for _, fc := range facts {
+			rel, isRel := c.relOf(condAtom{E: stripParens(fc.Cond), Pos: fc.Pos, Init: fc.Init})
+			if isRel && rel.Op == token.EQL {
+				l, rr := rel.L, rel.R
 				if c.isObj(l, bp.typeVar) {
 					l, rr = rr, l
 				}
-				sel, isS := stripParens(l).(*ast.SelectorExpr)
-				ok = isS && sel.Sel.Name == "Type" && c.isObj(sel.X, vobj) && c.isObj(rr, bp.typeVar)
-				if !ok {
-					why = "the filter condition must be <block>.Type == <BIND operand constant>"
+				if sel, isS := stripParens(l).(*ast.SelectorExpr); isS && sel.Sel.Name == "Type" && f.ElemIs(sel.X) && c.isObj(rr, bp.typeVar) {
+					typeEq++
+					continue
 				}
 			}
-			if ok {
-				as, isA := ifs.Body.List[0].(*ast.AssignStmt)
-				ok = isA && len(as.Lhs) == 1 && c.isObj(as.Lhs[0], bp.blocks)
-				if ok {
-					call, isC := as.Rhs[0].(*ast.CallExpr)
-					ok = isC && c.calleeName(call) == "append" && len(call.Args) == 2 && c.isObj(call.Args[0], bp.blocks) && c.isObj(call.Args[1], vobj)
-				}
-				if !ok {
-					why = "a matching block must be appended to the candidate slice, nothing else"
-				}
-			}
+			other++
 		}
+		if typeEq < 1 || other > 0 || len(facts) != typeEq {
+			ok = false
+			why = "the filter condition must be exactly <block>.Type == <BIND operand constant>"
+		}
+		// guards that skip must be about the same condition only (no other reason to skip a block)
+		ast.Inspect(f.Body, func(n ast.Node) bool {
+			ifs, isIf := n.(*ast.IfStmt)
+			if !isIf {
+				return true
+			}
+			atoms, pure := c.nnf(ifs.Cond, true, nil).conjuncts()
+			if !pure || len(atoms) != 1 {
+				ok = false
+				why = "a compound condition decides which blocks are candidates"
+				return true
+			}
+			rel, isRel := c.relOf(atoms[0])
+			if !isRel || (rel.Op != token.EQL && rel.Op != token.NEQ) {
+				ok = false
+				why = "a condition other than the type comparison decides which blocks are candidates"
+			}
+			return true
+		})
 	}
-	r.check(ok, rule, "type-filter", "append iff b.Type == operand, for every block, in order", "BIND candidate loop: "+why, c.pos(f.Pos()))
+	r.check(ok, rule, "type-filter", "append iff b.Type == operand, for every block, in order", "BIND candidate loop: "+why, c.pos(f.Stmt.Pos()))
 	// the candidate slice is not modified elsewhere in the arm
 	mods := 0
 	var scope ast.Node = bp.clause
@@ -375,7 +423,7 @@ func ruleCountGuards(c *Ctx, r *Report, rule string, bp *bindParts) {
 	for _, g := range bp.guards {
 		afterFilter := true
 		if bp.filter != nil && bp.helper == nil {
-			afterFilter = bp.stmtsPos[g] > bp.stmtsPos[bp.filter]
+			afterFilter = bp.stmtsPos[g] > bp.stmtsPos[bp.filter.Stmt]
 		}
 		if bp.stmtsPos[g] > tablePos || !afterFilter || !returnsErr(g) {
 			continue
@@ -562,7 +610,30 @@ func ruleBindParse(c *Ctx, r *Report, rule string, spec *langSpec) {
 	tgts := constsOfType(c.Bcl, "bindTarget")
 	got := map[string]string{}
 	defaults := map[string]bool{}
-	ast.Inspect(fd.Body, func(n ast.Node) bool {
+	// bindStmt and the helpers it was split into (module functions that are no compiler primitives)
+	bodies := []ast.Node{fd.Body}
+	seenHelper := map[*ast.FuncDecl]bool{fd: true}
+	for qi := 0; qi < len(bodies) && qi < 8; qi++ {
+		walkCalls(bodies[qi], false, func(call *ast.CallExpr) {
+			fn, ok := c.callee(call).(*types.Func)
+			if !ok || fn.Pkg() == nil || fn.Pkg().Path() != bclPath {
+				return
+			}
+			if _, prim := emitPrims[qname(fn)]; prim {
+				return
+			}
+			if hd := c.funcDecls[fn]; hd != nil && hd.Body != nil && !seenHelper[hd] {
+				seenHelper[hd] = true
+				bodies = append(bodies, hd.Body)
+			}
+		})
+	}
+	inspectAll := func(f func(ast.Node) bool) {
+		for _, b := range bodies {
+			ast.Inspect(b, f)
+		}
+	}
+	inspectAll(func(n ast.Node) bool {
 		sw, ok := n.(*ast.SwitchStmt)
 		if !ok || sw.Tag == nil || c.fieldPath(sw.Tag) != "<parser>.prev.val" {
 			return true
@@ -623,7 +694,7 @@ func ruleBindParse(c *Ctx, r *Report, rule string, spec *langSpec) {
 	r.check(allErr, rule, "unknown-words", "unknown selector and target words are compile errors", "unknown selector/target words must raise a compile error", c.pos(fd.Pos()))
 	// "1": match(tINT) with text "1"; default selector bindOne; all needs slice
 	one, defaultOne, allSlice := false, false, false
-	ast.Inspect(fd.Body, func(n ast.Node) bool {
+	inspectAll(func(n ast.Node) bool {
 		switch n := n.(type) {
 		case *ast.IfStmt:
 			if be, ok := stripParens(n.Cond).(*ast.BinaryExpr); ok {
@@ -719,4 +790,69 @@ func checkC04(c *Ctx, r *Report) {
 	c.ownership(r, "binding-writers", "vm", "binding", map[string]string{"vm.run": "the BIND arm", "execute": "returned"}, true)
 	ruleVMEffect(c, r, "vm-effect", true)
 	r.note("which blocks a particular program binds (depends on run-time block lists); only the selection machinery is decided")
+}
+
+// filterLoop abstracts `for _, b := range xs` and `for i := 0; i < len(xs); i++` (element xs[i]).
+type filterLoop struct {
+	Stmt   ast.Stmt
+	Body   *ast.BlockStmt
+	ElemIs func(e ast.Expr) bool
+}
+
+func (c *Ctx) asFilterLoop(s ast.Stmt, isSource func(ast.Expr) bool) *filterLoop {
+	switch s := s.(type) {
+	case *ast.RangeStmt:
+		if !isSource(s.X) {
+			return nil
+		}
+		var vobj, kobj types.Object
+		if id, ok := s.Value.(*ast.Ident); ok && s.Value != nil && id.Name != "_" {
+			vobj = c.objOf(id)
+		}
+		if id, ok := s.Key.(*ast.Ident); ok && s.Key != nil && id.Name != "_" {
+			kobj = c.objOf(id)
+		}
+		src := s.X
+		return &filterLoop{Stmt: s, Body: s.Body, ElemIs: func(e ast.Expr) bool {
+			e = stripParens(e)
+			if vobj != nil && c.isObj(e, vobj) {
+				return true
+			}
+			if ix, ok := e.(*ast.IndexExpr); ok && kobj != nil && c.isObj(ix.Index, kobj) && c.sameExpr(ix.X, src) {
+				return true
+			}
+			return false
+		}}
+	case *ast.ForStmt:
+		// for i := 0; i < len(xs); i++
+		init, ok := s.Init.(*ast.AssignStmt)
+		if !ok || len(init.Lhs) != 1 || len(init.Rhs) != 1 {
+			return nil
+		}
+		if k, isC := c.intConst(init.Rhs[0]); !isC || k != 0 {
+			return nil
+		}
+		iv := c.objOf(init.Lhs[0].(*ast.Ident))
+		post, ok := s.Post.(*ast.IncDecStmt)
+		if !ok || post.Tok != token.INC || !c.isObj(post.X, iv) {
+			return nil
+		}
+		cond, ok := stripParens(s.Cond).(*ast.BinaryExpr)
+		if !ok || cond.Op != token.LSS || !c.isObj(cond.X, iv) {
+			return nil
+		}
+		call, ok := stripParens(cond.Y).(*ast.CallExpr)
+		if !ok || c.calleeName(call) != "len" || len(call.Args) != 1 || !isSource(call.Args[0]) {
+			return nil
+		}
+		if c.assignedIn(s.Body, iv) {
+			return nil
+		}
+		src := call.Args[0]
+		return &filterLoop{Stmt: s, Body: s.Body, ElemIs: func(e ast.Expr) bool {
+			ix, ok := stripParens(e).(*ast.IndexExpr)
+			return ok && c.isObj(ix.Index, iv) && c.sameExpr(ix.X, src)
+		}}
+	}
+	return nil
 }
